@@ -1000,7 +1000,7 @@ fn store_seqs(out: &mut Out, prop: &str, thorough: bool, seed: u64) {
     let mut cases = 0usize;
     let contract = format!("{prop}/replies and every later read equal the reference map (set, cset, delete, pdelete; get, cget, pget, ls, pls, len, ls-subscriptions)");
     let mut run = |seq: &[Req], out: &mut Out| {
-        match run_seq(&rt, seq, prop == "C05", panics_only) {
+        match run_seq(&rt, seq, prop == "C05" || prop == "C17", panics_only) {
             Ok(None) => {}
             Ok(Some(_)) if panics_only => {}
             Ok(Some(w)) => {
@@ -1081,6 +1081,8 @@ fn c07(out: &mut Out) {
                 let _ = ls_b.try_recv();
                 wb.spub_init(7, "stream/a".into(), a).await.expect("spub_init A");
                 wb.spub_init(7, "stream/b".into(), b).await.expect("spub_init B");
+                wb.lock("lock/tmp".into(), a).await.expect("lock A (tmp)");
+                wb.release_lock("lock/tmp".into(), a).await.expect("release A (tmp)");   // stays on A's list of keys although it is free again
                 wb.lock("lock/a".into(), a).await.expect("lock A");
                 wb.lock("lock/b".into(), b).await.expect("lock B");
                 let mut waiting_b = wb.acquire_lock("lock/a".into(), b).await.expect("acquire B");
@@ -1166,7 +1168,9 @@ fn c08(out: &mut Out) {
     let protected: Vec<String> = vec!["$SYS/version".into(), "$SYS/sentinel".into(), oth("clientName"), oth("graveGoods"), oth("lastWill"), own("protocol")];
     let mut targets: Vec<String> = vec!["$SYS".into(), "$SYS/version".into(), "$SYS/sentinel".into(), "$SYS/#".into(), "$SYS/?".into(), "#".into(), "?/version".into(), "?/#".into(), "?/sentinel".into(),
         "$SYS/clients".into(), format!("$SYS/clients/{me}"), own("clientName"), own("graveGoods"), own("lastWill"), own("protocol"), own("graveGoods/x"),
-        oth("clientName"), oth("graveGoods"), oth("lastWill"), format!("$SYS/clients/?/clientName"), format!("$SYS/clients/{other}/#"), "$SYS/clients/#".into(), "".into(), "user/x".into()];
+        oth("clientName"), oth("graveGoods"), oth("lastWill"), format!("$SYS/clients/?/clientName"), format!("$SYS/clients/{other}/#"), "$SYS/clients/#".into(), "".into(), "user/x".into(),
+        // keys that only differ from a protected key by empty segments are different keys: nothing done to them may reach the protected one
+        "/$SYS/version".into(), "//$SYS/sentinel".into(), "$SYS//version".into(), "/$SYS/#".into(), "$SYS/version/".into()];
     targets.dedup();
     let mut cases = 0;
     for t in &targets {
@@ -1241,6 +1245,32 @@ fn c08(out: &mut Out) {
         Err(_) => out.report("C08/disconnect with grave goods and last will naming $SYS does not panic", Some("UNLISTED"), json!({})),
         Ok((replies, problems)) => if !problems.is_empty() {
             out.report("C08/grave goods and last will cannot reach protected $SYS values", Some("UNLISTED"), json!({"replies": replies, "effects": problems}));
+        }
+    }
+    // lock monitoring: the server's own bookkeeping about a client-chosen lock key stays below $SYS/locks
+    for key in ["version", "sentinel", "locks", "clients", "store/mode"] {
+        cases += 1;
+        let k = key.to_owned();
+        let r = catch_unwind(AssertUnwindSafe(|| rt.block_on(async {
+            let cfg = worterbuch::Config::new(None).await.expect("config");
+            let mut wb = Worterbuch::with_config(cfg);
+            let keep: Vec<String> = vec!["$SYS/version".into(), "$SYS/sentinel".into(), "$SYS/store/mode".into(), oth("clientName")];
+            for p in &keep { wb.set(p.clone(), json!("server"), internal, true).await.expect("internal set"); }
+            let l = wb.lock(k.clone(), me).await;
+            let rl = wb.release_lock(k.clone(), me).await;
+            let l2 = wb.lock(k.clone(), me).await;
+            let d = wb.disconnected(me, None).await;
+            let mut problems = vec![];
+            for p in &keep {
+                match wb.get(p) { Ok(v) if v == json!("server") => {}, o => problems.push(json!({"protected_key": p, "after": format!("{o:?}")})) }
+            }
+            (format!("{l:?} {rl:?} {l2:?} {d:?}"), problems)
+        })));
+        match r {
+            Err(_) => out.report("C08/no request panics the guard", Some("UNLISTED"), json!({"request": "lock/release/disconnect", "lock_key": key})),
+            Ok((replies, problems)) => if !problems.is_empty() {
+                out.report("C08/an ordinary client's request leaves every protected $SYS value (and what its subscribers see) untouched", Some("UNLISTED"), json!({"request": "lock, releaseLock, lock, disconnect", "lock_key": key, "replies": replies, "effects": problems}));
+            }
         }
     }
     // publish has no guard at all
